@@ -7,7 +7,7 @@ from ..runner import Leg, Res, libcall
 
 PROPERTY = 'C16'
 NEED_C = True
-RULE = ('3..8 series (lengths 2..6, ndim 1..2, duplicates allowed, list or matrix container; a third of the data sets are built as convex combinations of 2-3 patterns, time-stretched, so that nearest-mean decisions are near-ties), k in 1..n-1 (biased to 2..3), a drawn seed '
+RULE = ('3..8 series, one case in 10 with 9..14 (lengths 2..6, ndim 1..2, duplicates allowed, list or matrix container; a third of the data sets are built as convex combinations of 2-3 patterns, time-stretched, so that nearest-mean decisions are near-ties), k in 1..n-1 (biased to 2..3), a drawn seed '
         '(numpy and random are seeded from it inside the case), initialisation {k-means++ default, random, explicit sample '
         'size}, drop_stddev in {None,1,2,3}, max_it 1..5, window / penalty, use_c, serial (and a few parallel runs in the '
         'thorough tier), a recording monitor_distances callback. Oracle: keys exactly 0..k-1, the sets partition range(n), '
@@ -23,7 +23,7 @@ ASSUMPTIONS = ['initialize_sample_size is kept <= n - k (the default bound); fit
 @st.composite
 def _case(draw, parallel_ok):
     ndim = draw(st.sampled_from([1, 1, 2, 2]))
-    n = draw(st.integers(3, 8))
+    n = draw(gen.count(3, 8, 14, one_in=10))
     eq = draw(st.booleans())
     L0 = draw(st.integers(2, 6))
     regime = draw(st.sampled_from(['L', 'L', 'L', 'F']))
